@@ -79,11 +79,16 @@ func CheckC01(in []byte, blocks []*cm.RootBlock, inMemory bool) (v []Viol) {
 }
 
 type ctx struct {
-	src   []byte
-	valid bool
-	cover []uint8
-	v     []Viol
+	src    []byte
+	valid  bool
+	cover  []uint8
+	inside []bool // bytes inside the span of an inline node that has children
+	v      []Viol
 }
+
+// validSpan is the meaning of "valid range", stated here and not taken from
+// the library's Span.IsValid.
+func validSpan(sp cm.Span) bool { return sp.Start >= 0 && sp.End >= sp.Start }
 
 func (c *ctx) add(p, f string, a ...any) { c.v = append(c.v, Viol{p, fmt.Sprintf(f, a...)}) }
 
@@ -96,7 +101,10 @@ func kindName(n cm.Node) string {
 
 func (c *ctx) walk(n cm.Node, parent cm.Span, inLink bool) {
 	sp := n.Span()
-	if !sp.IsValid() || sp.End > len(c.src) {
+	if sp.IsValid() != validSpan(sp) {
+		c.add("C02", "%s span %v: IsValid() = %v", kindName(n), sp, sp.IsValid())
+	}
+	if !validSpan(sp) || sp.End > len(c.src) {
 		c.add("C02", "%s invalid span %v", kindName(n), sp)
 		return
 	}
@@ -113,6 +121,11 @@ func (c *ctx) walk(n cm.Node, parent cm.Span, inLink bool) {
 	c.shape(n)
 	nc := n.ChildCount()
 	isLeaf := nc == 0 && (n.Inline() != nil || n.Block().Kind() == cm.ListMarkerKind)
+	if nc > 0 && n.Inline() != nil {
+		for i := sp.Start; i < sp.End; i++ {
+			c.inside[i] = true
+		}
+	}
 	if isLeaf {
 		for i := sp.Start; i < sp.End; i++ {
 			if c.cover[i] < 255 {
@@ -124,10 +137,10 @@ func (c *ctx) walk(n cm.Node, parent cm.Span, inLink bool) {
 	for i := 0; i < nc; i++ {
 		ch := n.Child(i)
 		cs := ch.Span()
-		if cs.IsValid() && cs.Start < prevEnd {
+		if validSpan(cs) && cs.Start < prevEnd {
 			c.add("C02", "%s child %d %s span %v overlaps/precedes prev end %d", kindName(n), i, kindName(ch), cs, prevEnd)
 		}
-		if cs.IsValid() && cs.End > prevEnd {
+		if validSpan(cs) && cs.End > prevEnd {
 			prevEnd = cs.End
 		}
 		c.walk(ch, sp, inLink)
@@ -296,12 +309,12 @@ func (c *ctx) childText(in *cm.Inline) string {
 }
 
 func CheckTree(b *cm.RootBlock) []Viol {
-	c := &ctx{src: b.Source, valid: utf8.Valid(b.Source), cover: make([]uint8, len(b.Source))}
+	c := &ctx{src: b.Source, valid: utf8.Valid(b.Source), cover: make([]uint8, len(b.Source)), inside: make([]bool, len(b.Source))}
 	sp := b.Span()
 	if sp.End != len(b.Source) {
 		c.add("C02", "root span %v end != len %d", sp, len(b.Source))
 	}
-	if sp.IsValid() && sp.Start <= len(b.Source) {
+	if validSpan(sp) && sp.Start <= len(b.Source) {
 		for _, ch := range b.Source[:sp.Start] {
 			if ch != ' ' && ch != '\t' {
 				c.add("C02", "root span %v preceded by %q", sp, ch)
@@ -318,6 +331,24 @@ func CheckTree(b *cm.RootBlock) []Viol {
 		}
 		if n == 0 && textual {
 			c.add("C03", "byte %d %q not covered", i, ch)
+			break
+		}
+	}
+	// A paragraph at the top level has no container prefixes and no markers of
+	// its own: apart from white space and the backslash of an escape, every
+	// byte is either text (in a leaf) or syntax of an inline construct (inside
+	// the span of a node with children). Punctuation that fell out of a failed
+	// construct ("[a][]" without a definition) is text like any other.
+	if b.Kind() == cm.ParagraphKind && validSpan(sp) && sp.End <= len(b.Source) {
+		for i := sp.Start; i < sp.End; i++ {
+			ch := b.Source[i]
+			if c.cover[i] > 0 || c.inside[i] || ch == ' ' || ch == '\t' || ch == '\n' || ch == '\r' {
+				continue
+			}
+			if ch == '\\' && i+1 < sp.End && specre.IsASCIIPunctuation(b.Source[i+1]) {
+				continue
+			}
+			c.add("C03", "byte %d %q of a top-level paragraph is neither in a leaf nor inside an inline construct", i, ch)
 			break
 		}
 	}
